@@ -1185,6 +1185,21 @@ void _GD_FlushMeta(DIRFILE* D, int fragment, int force)
   dtrace("%p, %i, %i", D, fragment, force);
 
   if (fragment == GD_ALL_FRAGMENTS) {
+    /* An included fragment whose byte sex, encoding, frame offset or protection
+     * differs from its parent's must state them itself: when the parent is
+     * rewritten (its own values, which a silent child would inherit on the next
+     * open, may have changed), rewrite such a child, too. */
+    for (i = 1; i < D->n_fragment; ++i) {
+      const struct gd_fragment_t *P = D->fragment + D->fragment[i].parent;
+      if (P->modified && (D->fragment[i].byte_sex != P->byte_sex ||
+            D->fragment[i].encoding != P->encoding ||
+            D->fragment[i].frame_offset != P->frame_offset ||
+            D->fragment[i].protection != P->protection))
+      {
+        D->fragment[i].modified = 1;
+      }
+    }
+
     for (i = 0; i < D->n_fragment; ++i)
       if (force || D->fragment[i].modified)
         _GD_FlushFragment(D, i, D->flags & GD_NOSTANDARD);
